@@ -10,5 +10,6 @@ CONSTANTS
   TrustScanOrder = TRUE
   SwapBeforeApply = FALSE
   BatchOnSharedCopy = FALSE
+  BuildTrustsStorage = FALSE
 INVARIANT MigratedRebuildAgrees
 CHECK_DEADLOCK FALSE
